@@ -1277,6 +1277,12 @@ func (r *Run) safety(st *State, fr *Frame, clause string, pos token.Pos, cond *T
 	if cond.IsTrue() {
 		return
 	}
+	cs := cond.String()
+	for _, p := range st.pc {
+		if p.String() == cs {
+			return // already established on this path
+		}
+	}
 	if r.safe {
 		props := []string(nil)
 		if r.spec != nil {
